@@ -3,6 +3,10 @@ package check
 import (
 	"fmt"
 	"math/rand"
+	"os"
+	"path/filepath"
+	"sort"
+	"strings"
 	"time"
 )
 
@@ -14,6 +18,74 @@ const NumPrefixes = 77
 
 const contractLoc = "jerr.NewLocation replaced by its contract (panics iff the file is nil; returns File/Index unchanged; Line, Column, Quote opaque) — the contract itself is decided on the real code by the location-contract jobs (C07, also run inside C01)"
 const contractRune = "bytes.Bytes.DecodeRune (used only to render the offending character into error text) evaluated on the concrete witness; error message text after the constant prefix is outside the claim"
+
+
+// corpusFiles: the .jst files under /repo/testdata in the order vCorpusFile numbers them.
+func corpusFiles() []string {
+	var files []string
+	filepath.Walk(filepath.Join(RepoDir, "testdata"), func(p string, info os.FileInfo, err error) error {
+		if err == nil && !info.IsDir() && strings.HasSuffix(p, ".jst") {
+			files = append(files, p)
+		}
+		return nil
+	})
+	sort.Strings(files)
+	return files
+}
+
+// corpusJobs (C01, C04, C17): the repository's own corpus as a document family of HCorpusHole —
+// `windows` windows of 100 files as they are (the file index is the symbolic input: one path per
+// file; windows < 0: all files) and `holes` sampled (file, cut) pairs with 2 symbolic bytes
+// substituted at the cut. check: 1 = build only, 4 = + JDoc Exchange bytes, 17 = + OpenAPI export.
+// Returns the number of accepted documents.
+func corpusJobs(c *Ctx, check int64, windows, holes int, seedOff int64) int {
+	files := corpusFiles()
+	if len(files) == 0 {
+		c.Inconclusive("no corpus files under " + RepoDir + "/testdata")
+		return 0
+	}
+	rng := rand.New(rand.NewSource(c.Seed + seedOff))
+	base := Job{Pkg: "core", Fn: "HCorpusHole", Stubs: []string{"loc", "rune"}, PanicIsViolation: true, MaxPaths: 500000, Timeout: time.Hour, MaxSteps: 60000000, MaxDepth: 2000, Quiet: true,
+		AllowDrops: []string{"on symbolic operand"}}
+	accepted := 0
+	nWin := (len(files) + 99) / 100
+	var wins []int
+	if windows < 0 || windows >= nWin {
+		for w := 0; w < nWin; w++ {
+			wins = append(wins, w)
+		}
+	} else {
+		for _, w := range rng.Perm(nWin)[:windows] {
+			wins = append(wins, w)
+		}
+		sort.Ints(wins)
+	}
+	for _, w := range wins {
+		lo, hi := w*100, w*100+99
+		if hi >= len(files) {
+			hi = len(files) - 1
+		}
+		j := base
+		j.Name, j.Params = fmt.Sprintf("corpus files #%d..#%d as they are", lo, hi), map[string]int64{"lo": int64(lo), "hi": int64(hi), "k": 0, "check": check}
+		jr := c.RunJob(j)
+		accepted += jr.Stats.Reached["accepted"]
+	}
+	for h := 0; h < holes; h++ {
+		i := rng.Intn(len(files))
+		st, err := os.Stat(files[i])
+		if err != nil || st.Size() == 0 {
+			continue
+		}
+		cut := rng.Intn(int(st.Size()) + 1)
+		j := base
+		j.Name, j.Params = fmt.Sprintf("corpus file #%d cut=%d +2B", i, cut), map[string]int64{"i": int64(i), "cut": int64(cut), "k": 2, "check": check}
+		jr := c.RunJob(j)
+		accepted += jr.Stats.Reached["accepted"]
+	}
+	return accepted
+}
+
+const corpusNote = "corpus family (HCorpusHole): the .jst projects under /repo/testdata (the maintainers' own fixtures: every feature of the language, the schema rules, the negative cases) as they are — the file index is the symbolic input of a window of 100 files — and with 2 symbolic bytes substituted at sampled cuts; INCLUDEd files are read from the real file system, an INCLUDE name holding a symbolic byte resolves to nothing"
 
 // PropFn runs all jobs of a property for a tier and returns the exit code.
 type PropFn func(c *Ctx) int
@@ -111,9 +183,24 @@ func propC01(c *Ctx) int {
 		j.Name, j.Fn, j.Params = "include graph 3 files", "HIncludeGraph", map[string]int64{"files": 3}
 		c.RunJob(j)
 	}
+	// e. the schema-rule matrix and the corpus family: builds only
+	{
+		j := base
+		j.Name, j.Fn, j.Params = "schema matrix", "HSchemaMatrix", map[string]int64{"build": 1}
+		j.Stubs = []string{"rune"}
+		j.MustReach = []string{"accepted", "rejected", "accepted-as-type"}
+		c.RunJob(j)
+	}
+	if thorough {
+		corpusJobs(c, 1, -1, 400, 101)
+	} else {
+		corpusJobs(c, 1, 2, 25, 101)
+	}
 	// the NewLocation contract the stub relies on
 	locationContractJobs(c, 4)
 	return c.Finish("model_checking", []string{
+		"schema matrix (HSchemaMatrix): 74 fragments of the schema language (every type by name, every rule with the types it applies to, enums inline and by name, references, or with rule sets, allOf, additionalProperties with each of its 19 values) x 11 places a schema value can stand (root / property of a type, array item, response, request, Query / Path / Headers property, JSON-RPC Params and Result, same-code responses): the build terminates without a panic",
+		corpusNote,
 		fmt.Sprintf("bounds: root file of <= %d arbitrary bytes; %d arbitrary bytes after each of %d witness prefixes (harness/core/zz_verif_prefixes.go); macro graphs <= 3 macros; include graphs <= 3 files + root; per-path budget 3e6 SSA steps / call depth 400 (exceeding it = candidate hang / runaway recursion, replayed natively in a subprocess)", maxN, k, NumPrefixes-1),
 		"reference matrix (HRefMatrix): 18 places that can name a user type (Path property / root / or-rule / allOf, request and response Headers, Query root / property, Request, response, array response, Params, Result, allOf of a type, or / type / additionalProperties rules, key shortcut) x 9 notations of the type (jsight object / scalar / array, regex, regex whose example holds a control character, any, empty, a type that refers to itself, a cycle of two) x definition before / after use — all symbolic: the build ends with a catalog or a located error (no panic, no runaway recursion); known finding F-C01-key-shortcut-self-reference (recursion inside jsight-schema-core)",
 		"file system = virtual (os.Stat, os.ReadFile, reader.Read modelled; absent => ErrNotExist; directory => error)",
@@ -480,7 +567,43 @@ func propC08(c *Ctx) int {
 		j.MustReach = []string{"body-layout-compared"}
 		c.RunJob(j)
 	}
+	{
+		j := base
+		j.Name, j.Fn, j.Params = "multi-line notes", "HNoteLayout", nil
+		j.Stubs = []string{"rune"}
+		j.MustReach = []string{"notes-compared", "indented"}
+		c.RunJob(j)
+	}
+	// the repository's own corpus with every line end rewritten (CRLF / CR: a symbolic choice; the file index too)
+	{
+		files := corpusFiles()
+		nWin := (len(files) + 99) / 100
+		rng := rand.New(rand.NewSource(c.Seed + 8))
+		wins := rng.Perm(nWin)
+		if !thorough && len(wins) > 3 {
+			wins = wins[:3]
+		}
+		sort.Ints(wins)
+		compared := 0
+		for _, w := range wins {
+			lo, hi := w*100, w*100+99
+			if hi >= len(files) {
+				hi = len(files) - 1
+			}
+			j := base
+			j.Name, j.Fn, j.Params = fmt.Sprintf("corpus files #%d..#%d with CRLF / CR line ends", lo, hi), "HCorpusLayout", map[string]int64{"lo": int64(lo), "hi": int64(hi)}
+			j.Stubs = []string{"rune"}
+			j.MaxSteps, j.MaxDepth = 100000000, 2000
+			jr := c.RunJob(j)
+			compared += jr.Stats.Reached["same"] + jr.Stats.Reached["rejected"]
+		}
+		if compared == 0 {
+			c.Inconclusive("vacuity: no corpus file was compared")
+		}
+	}
 	return c.Finish("model_checking", []string{
+		"multi-line notes (HNoteLayout): /* */ notes that span lines on ENUM values and on schema properties x {LF->CRLF, LF->CR, uniform indentation by one blank / two blanks / a tab}: equal deep digest (which holds every note); known finding F-C08-multiline-enum-note-indentation for the indentation of ENUM value notes",
+		"corpus family (HCorpusLayout): every file under /repo/testdata without a CR and without INCLUDE (quick: 3 windows of 100 files, thorough: all 1108), built as written and with every line end rewritten to CRLF or to CR (file index and convention symbolic): the same verdict; accepted: equal deep digest; rejected: the same error class (message up to its first quoted part) on the same line",
 		fmt.Sprintf("comment content (HLayoutComment): a '#' line comment / '### ... ###' block comment with %d arbitrary content bytes (any byte but NUL; line comment without line ends; block without ### inside) at a symbolic choice among all frozen trivia sites of each skeleton (outside existing comments): same verdict, same deep digest", kcm),
 		"between a keyword line and its body (HLayoutBody): 11 body-carrying directives (TYPE, Query, Headers, Path, Request, response, Params, Result, Body x2, ENUM) x placement (root / pasted MACRO) x 6 rewrites (explicit ( ) around the body; '#' line comment; one-line ### block; multi-line ### block with a blank line; blank + whitespace-only lines; ( ) plus block comment), all symbolic choices; for TYPE and Body a comment before the body is a schema comment (part of the body text, not of the schema) and is discounted from the digest",
 		"compositions: trivia insertion x line-ending rewrite (the skeleton and the variant both rewritten to CRLF / CR; every site in the thorough tier, every 3rd in the quick tier); model x layout in C02 (group 9)",
@@ -715,7 +838,35 @@ func propC15(c *Ctx) int {
 		Stubs: []string{"rune"}, PanicIsViolation: true, MaxPaths: 200000, Timeout: 2 * time.Hour, MaxSteps: 20000000, MaxDepth: 1000, MustReach: []string{"permuted"}})
 	c.RunJob(Job{Name: "permutation with tags", Pkg: "core", Fn: "HPermute", Params: map[string]int64{"family": 1},
 		Stubs: []string{"rune"}, PanicIsViolation: true, MaxPaths: 100000, Timeout: time.Hour, MaxSteps: 20000000, MaxDepth: 1000, MustReach: []string{"permuted"}})
+	// the repository's own corpus: every file without MACRO / PASTE / INCLUDE and with 2..maxn top-level blocks, all orders
+	{
+		files := corpusFiles()
+		nWin := (len(files) + 99) / 100
+		rng := rand.New(rand.NewSource(c.Seed + 15))
+		wins, maxn := rng.Perm(nWin), int64(4)
+		if c.Tier == "thorough" {
+			maxn = 5
+		} else if len(wins) > 3 {
+			wins = wins[:3]
+		}
+		sort.Ints(wins)
+		permuted := 0
+		for _, w := range wins {
+			lo, hi := w*100, w*100+99
+			if hi >= len(files) {
+				hi = len(files) - 1
+			}
+			jr := c.RunJob(Job{Name: fmt.Sprintf("corpus files #%d..#%d, blocks in every order (<= %d blocks)", lo, hi, maxn), Pkg: "core", Fn: "HCorpusPermute",
+				Params: map[string]int64{"lo": int64(lo), "hi": int64(hi), "maxn": maxn}, Stubs: []string{"loc", "rune"}, PanicIsViolation: true, MaxPaths: 500000, Timeout: 2 * time.Hour,
+				MaxSteps: 100000000, MaxDepth: 2000, Quiet: true})
+			permuted += jr.Stats.Reached["permuted"]
+		}
+		if permuted == 0 {
+			c.Inconclusive("vacuity: no corpus document was permuted")
+		}
+	}
 	return c.Finish("model_checking", []string{
+		"corpus family (HCorpusPermute): every file under /repo/testdata that is accepted, has no MACRO / PASTE / INCLUDE line and has 2..4 (quick: 3 windows of 100 files) / 2..5 (thorough: all 1108 files) top-level blocks after JSIGHT — the root directives of the implementation's own directive tree give the cut positions (used to place the test, not to judge it) — built as written and with its blocks in a symbolic permutation (Lehmer code: every order): the permuted document is accepted and has the same entities with the same content (deep digest as multisets)",
 		"tags family: methods with and without Tags, a declared TAG used before / after its block, optionally a Tags directive naming the path tag of another method, optionally a TAG declared with the name of a path tag (5 blocks, all orders, 4 variants): the verdict and the error class do not depend on the order; if accepted, the same entities",
 		"generated examples are not part of the comparison here: for schemas that refer to a regex type they are not even stable from run to run (C06, known finding F-C06-regex-example-map-order)",
 		fmt.Sprintf("one accepted document of %d independent top-level blocks after JSIGHT (TAG with description; TYPE @a referring to @b and to an ENUM; TYPE @b referring back to @a and carrying a rule; ENUM with notes; URL block with two methods, Tags and type references; stand-alone method with a path parameter, request headers + body and an array-of-type response; quick: + nothing, thorough: + SERVER) built as written and in a symbolic permutation (Lehmer code: all %d! orders); second job: one block fewer, and which block refers to which is symbolic as well (@a -> @b, @b -> @a — both: a cycle —, @a -> ENUM, the stand-alone method -> @a / @b: 16 reference structures x all orders; the TAG block is replaced by a JSON-RPC method whose Params inherit from @b through allOf and whose Result is [@a])", n, n),
@@ -730,7 +881,7 @@ func propC16(c *Ctx) int {
 	c.RunJob(Job{Name: "the five accessors in a symbolic sequence (bytes)", Pkg: "core", Fn: "HRepeatBytes", Stubs: []string{"rune"}, PanicIsViolation: true, MaxPaths: 100000, Timeout: time.Hour,
 		MaxSteps: 50000000, MaxDepth: 1000, MustReach: []string{"repeatable"}})
 	// the repeated calls under one range-over-map site iterating in a symbolic order
-	for doc := int64(0); doc < 4; doc++ {
+	for doc := int64(0); doc < 5; doc++ {
 		for site := int64(0); site < 40; site++ {
 			jr := c.RunJob(Job{Name: fmt.Sprintf("the five accessors repeated, doc#%d map-site=%d", doc, site), Pkg: "core", Fn: "HRepeatBytes", Params: map[string]int64{"site": site, "docp": doc},
 				Stubs: []string{"rune"}, PanicIsViolation: true, MaxPaths: 100000, Timeout: time.Hour, MaxSteps: 50000000, MaxDepth: 1000, Quiet: true})
@@ -755,10 +906,17 @@ func propC16(c *Ctx) int {
 				Stubs: []string{"rune"}, PanicIsViolation: true, MaxPaths: 200000, Timeout: time.Hour, MaxSteps: 20000000, MaxDepth: 1000, Quiet: true, MustReach: []string{"model-roundtrip"}})
 		}
 	}
+	// the repository's own corpus: the five accessors three times round on every accepted file, and on mutated files
+	if c.Tier == "thorough" {
+		corpusJobs(c, 16, -1, 300, 116)
+	} else {
+		corpusJobs(c, 16, 2, 15, 116)
+	}
 	return c.Finish("model_checking", []string{
+		corpusNote + " — here: the five accessors called three times round on every accepted document, each returning the bytes of its first call",
 		"bytes (HRepeatBytes): ToJson, ToJsonIndent, ToOpenAPIJson, ToOpenAPIJsonIndent and Title of one built catalog called in a symbolic sequence of four calls and then twice each: every accessor returns the bytes of its first call — also when the repeated calls run with ONE range-over-map site iterating in a symbolic order (all sites in turn), so that a serialiser that walks a Go map cannot rely on the engine's insertion order; the REAL serialisers run in the engine, encoding/json being modelled over interpreter values (symgo/json.go: struct tags, omitempty, embedded structs, sorted map keys, Marshaler / TextMarshaler methods called through the interpreter, HTML-safe escaping, compaction) — a model validated by `vcheck SELFTEST`: byte-identical ToJson, ToJsonIndent and OpenAPI JSON for all 1108 corpus files, and by the native replay of every path of this job",
 		"emitter level: what ToJson / ToJsonIndent hand to encoding/json — for every entity its names, ids, annotations, descriptions, parameters, and for every schema and enum the content tree, rules, notes, used types/enums and the EXAMPLE, each obtained the way the MarshalJSON methods obtain it (harness/catalog/zz_verif_deep.go VSchemaEmit, overlaid into package catalog) — after a symbolic sequence of up to three earlier calls (serialise / Title) equals what the first serialisation of a fresh catalog of the same project hands over; 3 fixture projects (regex user type referred to by jsight types, regex bodies, allOf, enums, path variables, query, JSON-RPC) and model-rendered documents of C02 serialised twice",
-		"outside: calls from several goroutines (C18); documents beyond the fixtures and the model-rendered ones",
+		"outside: calls from several goroutines (C18); call sequences on corpus documents other than three rounds in the fixed order (the symbolic sequences run on the 4 fixture documents)",
 		"the regex example generator (github.com/lucasjones/reggen) runs natively inside the engine on the concrete pattern, one stateful generator per schema object as in the real run",
 		contractRune,
 	}, map[string]interface{}{})
@@ -803,6 +961,16 @@ func propC04(c *Ctx) int {
 			MaxSteps: 3000000, MaxDepth: 400, MustReach: []string{"accepted", "rejected"}})
 		emitted += jr.Stats.Reached["accepted"]
 	}
+	{
+		jr := c.RunJob(Job{Name: "schema matrix emitted", Pkg: "core", Fn: "HSchemaMatrix", Stubs: []string{"rune"}, PanicIsViolation: true, MaxPaths: 100000, Timeout: time.Hour,
+			MaxSteps: 8000000, MaxDepth: 1000, MustReach: []string{"accepted", "accepted-as-type"}})
+		emitted += jr.Stats.Reached["accepted"]
+	}
+	if thorough {
+		emitted += corpusJobs(c, 4, -1, 600, 104)
+	} else {
+		emitted += corpusJobs(c, 4, 2, 30, 104)
+	}
 	if emitted == 0 {
 		c.Inconclusive("vacuity: no accepted document was emitted")
 	}
@@ -818,7 +986,10 @@ func propC04(c *Ctx) int {
 		"late-checked bodies and rules (HEmitCases): regex bodies with 12 patterns (valid and invalid) in a response, a request, Body directives and a user type used as Path property; Path bodies whose rule disagrees with the example or names an undefined type / enum; an empty ENUM; types in empty / any notation; same-code responses — symbolic choices: whatever the verdict of the build, an accepted document serialises",
 		"reference matrix (HRefMatrix, see C01): for every ACCEPTED combination of a place that names a user type and a notation of that type the emitter steps succeed",
 		"bytes (vCheckJSON, on every accepted document of these families): ToJson and ToJsonIndent succeed, are valid UTF-8 JSON (encoding/json.Valid on the produced bytes), agree up to whitespace (Compact(indent) == compact), start with tags, contain interactions and end with jsight 0.3 / jdocExchangeVersion 2.0.0; every interaction appears under its key with id and protocol, every tag with name and title and an interactionGroups array, every response with a body object, every user type / enum / server under its name; encoding/json is modelled over interpreter values (symgo/json.go; byte-identical with the native serialisers on all 1108 corpus files, `vcheck SELFTEST`)",
-		"outside: a full JSON-schema validation of the JDoc Exchange shape (only the listed keys and per-entity fields are asserted)",
+		"shape (vShape, harness/core/zz_verif_shape.go — on the PARSED bytes of both forms; a JSON reader in plain Go runs in the engine and natively): the fixed top-level keys in their order; info / servers / userTypes / userEnums / tags / interactions with their required fields and no others; ids equal to their keys and to 'protocol method path'; every tag an interaction names, every interaction a tag group lists (with the group's protocol), every usedUserTypes / usedUserEnums entry defined in the document and listed once; every schema with its notation and the members that notation has; every content node typed consistently (object / array: children array and no scalarValue; others: a string scalarValue and no children; object members keyed; optional a boolean; rules a filled array of well-formed rules); every entity of the catalog present in the bytes and no interaction invented",
+		"schema matrix (HSchemaMatrix): 74 fragments of the schema language x 11 places a schema value can stand (see C01): every accepted combination serialises with that shape",
+		corpusNote,
+		"outside: hole documents whose substituted bytes reach a serialised string are decided at emitter level only (declared drop 'json string on symbolic operand')",
 		contractLoc, contractRune,
 	}, map[string]interface{}{"accepted_documents_emitted": emitted})
 }
@@ -861,6 +1032,16 @@ func propC17(c *Ctx) int {
 			MaxSteps: 3000000, MaxDepth: 400, MustReach: []string{"accepted"}})
 		exported += jr.Stats.Reached["accepted"]
 	}
+	{
+		jr := c.RunJob(Job{Name: "schema matrix exported", Pkg: "core", Fn: "HSchemaMatrix", Params: map[string]int64{"export": 1}, Stubs: []string{"rune"}, PanicIsViolation: true, MaxPaths: 100000, Timeout: time.Hour,
+			MaxSteps: 8000000, MaxDepth: 1000, MustReach: []string{"accepted", "accepted-as-type"}})
+		exported += jr.Stats.Reached["accepted"]
+	}
+	if thorough {
+		exported += corpusJobs(c, 17, -1, 600, 117)
+	} else {
+		exported += corpusJobs(c, 17, 2, 30, 117)
+	}
 	if exported == 0 {
 		c.Inconclusive("vacuity: no accepted document was exported")
 	}
@@ -868,7 +1049,10 @@ func propC17(c *Ctx) int {
 		"structure level: for every ACCEPTED document of the hole family (an HTTP kitchen sink — URL grouping, path variables with and without a Path directive, query, request headers/body, several responses incl. regex and headers+body, tags, OperationId, types with enum/min/allOf/or rules, a regex type — and a JSON-RPC + HTTP document; 2 symbolic bytes substituted at a cut; sampled cuts in the quick tier, every cut in the thorough tier) openapi.NewOpenAPI — everything ToOpenAPIJson does before it calls encoding/json, incl. jsight-schema-core/openapi from its SSA — does not panic and returns an error value or a structure with openapi 3.0.3, info and paths in which every HTTP interaction is paths[path][method], its responses are there under keys that are status codes or 'default', every {parameter} of the path is a required path parameter (with a schema) of the path item, and every user type is a component",
 		"the reference matrix (18 places x 9 notations of a user type) and the late-checked bodies and rules (HEmitCases) of C01/C04: every accepted combination is exported too — an error value or a document with version, info and paths, never a panic",
 		"bytes: ToOpenAPIJson and ToOpenAPIJsonIndent of every exported document succeed, are valid JSON, agree up to whitespace, start with openapi 3.0.3 and info, and every \"$ref\": \"#/components/schemas/X\" in the bytes names a user type that is a key of components.schemas (encoding/json modelled over interpreter values, symgo/json.go; jsight-schema-core/openapi's own MarshalJSON methods run through the interpreter)",
-		"outside: request bodies / headers / tags of the operations beyond their presence, OpenAPI schema validity of the converted schemas",
+		"shape on the PARSED bytes (vOpenAPIShape, harness/json.go.tmpl): openapi 3.0.3, info with title and version, paths; every path key starts with '/', every path item holds only operations / parameters / summary / description / servers and at least one operation; every operation has a non-empty responses object whose keys are status codes or 'default' and whose entries carry a description; parameters are named, located (path / query / header / cookie), declared once and carry a schema; every {parameter} of a path key is a required path parameter of the path item or the operation; EVERY \"$ref\" anywhere in the document is #/components/schemas/<a key of components.schemas>; every user type of the catalog is a component; every HTTP interaction of the catalog is paths[path][method] with all its response codes",
+		"schema matrix (HSchemaMatrix): 74 fragments of the schema language x 11 places (see C01): every accepted combination is exported as an error value or a sound document, never a panic",
+		corpusNote,
+		"outside: OpenAPI-schema validity of the converted schema objects; a content map under requestBody (the repository's snapshots omit it for `Request empty`; the property does not state it)",
 		contractLoc, contractRune,
 	}, map[string]interface{}{"accepted_documents_exported": exported})
 }
